@@ -100,9 +100,9 @@ CLAIMED = {
              'exhaustive in exact Fraction arithmetic on the real matrices): SimplexEdge/TensorEdge1/TensorEdge2/ScaledUpdim.swapup/swapdown, Updim.swapdown over all adjacent pairs of chains of <= 3 child/edge transforms of line, '
              'square, cube, triangle, tetrahedron, prism. '
              'Array indexing, unbounded: the integer-array branch of Transforms.__getitem__ (item k of the result is self[index[k]] for every accepted index array, rejected exactly for out-of-range or repeated indices); Transforms.index/contains; '
-             '_Uniform/_Take/_Repeat/_Product.get of the elementseq/pointsseq containers. Bounded native enumerations: slice/mask/array forms of every transform-sequence class, transformseq.chain, take/compress/repeat/product/chain of the containers (incl. chained take()).',
+             '_Uniform/_Take/_Repeat/_Product.get of the elementseq/pointsseq containers. Bounded native enumerations: slice/mask/array forms of every transform-sequence class, transformseq.chain, take/compress/repeat/product/chain of the containers (incl. chained take()); Topology.locate on small structured topologies (also one element wide) with separable affine / one-direction-nonlinear geometries: raises or returns points whose images lie within the tolerance of the targets, in input order (floating point: native stand-in only).',
         note='Trusted: pyvc executor; numpy.searchsorted/argsort/cumsum axioms; L-MONO; monoid fold lemmas (cross-checked on random matrices). Assumed: A-NF, A-DIM, well-formed input chains. One defect repaired (chained take() order). Outside / not built: '
-             'StructuredTransforms with symbolic nrefine, TransformIndex/TransformCoords evaluation, locate(), interfaces (a seeded _asaffine defect is missed for that reason).',
+             'StructuredTransforms with symbolic nrefine, TransformIndex/TransformCoords evaluation, interfaces, locate() beyond the bounded native family (unstructured and trimmed topologies, coupled nonlinear geometries, eps/maxdist/skip_missing).',
         technique='contract-based deductive verification: harness contracts over real method bodies, loop invariants with an abstract monoid for chain rewriting (ast->z3, E-matching); bounded native enumeration for the item-level swap tables'),
     'C12': dict(
         design='4.12 and 9.5',
